@@ -151,12 +151,15 @@ def run_life_case(case, res):
     runner = make_sim(kind, cfg)
     safe_load(runner, text)
     init_regs(kind, runner, case["regs"])
+    from architecture_simulator.simulation.runtime_errors import InstructionExecutionException
+
     n = 0
     faulted = False
     while not fresh.is_done() and n < case["max_steps"]:
         try:
             r1 = fresh.step()
-        except Exception as e:
+        except InstructionExecutionException as e:
+            # (any other exception out of step()/is_done() propagates: the simulation must report done, not raise)
             faulted = True
             try:
                 hist.step()
@@ -228,6 +231,8 @@ def run_interleave_case(case, res):
     finishing with a step loop must end in the same snapshot; once done, done is stable."""
     import copy
 
+    from architecture_simulator.simulation.runtime_errors import InstructionExecutionException
+
     kind, cfg = case["sim"], case["cfg"]
     res.count({"toy": "toy_cases", "five": "five_cases", "single": "single_cases"}[kind])
     sim = make_sim(kind, cfg)
@@ -276,8 +281,8 @@ def run_interleave_case(case, res):
                     if r is not False or now != base:
                         res.violation("C13", "done-not-stable", "%s: after done step() returned %r / changed %s" % (where, r, diff_names(base, now)), case)
                         return
-        except Exception:
-            # a faulting program: nothing is claimed about a simulation that raised
+        except InstructionExecutionException:
+            # a faulting program: nothing is claimed about a simulation that raised a run-time error
             return
     res.nontrivial(h64(case))
 
